@@ -934,7 +934,7 @@ func duplicateNames(obs []obsStruct) string {
 }
 
 // ------------------------------------------------------------------ what differs between two outputs
-// (structs are told apart by name and field tags, fields by their tag: names may coincide)
+// (structs are told apart by name and (tag, type) of their fields, fields by their tag: names may coincide)
 
 func fieldTags(s obsStruct) []string {
 	r := []string{}
@@ -945,7 +945,10 @@ func fieldTags(s obsStruct) []string {
 }
 
 func structID(s obsStruct) string {
-	t := fieldTags(s)
+	t := []string{}
+	for _, f := range s.Fields {
+		t = append(t, f.Tag+":"+f.Type)
+	}
 	sort.Strings(t)
 	return s.Name + "{" + strings.Join(t, ",") + "}"
 }
@@ -1143,7 +1146,41 @@ func runInput(c inputT, r *resT) {
 	if len(variants) > r.MaxVariants {
 		r.MaxVariants = len(variants)
 	}
-	r.Keys = append(r.Keys, fmt.Sprintf("%s/%s/%s/%s", docKey(c.doc), c.args.Form, ignKind(c.doc, c.args), outcome))
+	r.Keys = append(r.Keys, fmt.Sprintf("%s/%s/%s/%s/%s", docKey(c.doc), nameKind(c.doc), c.args.Form, ignKind(c.doc, c.args), outcome))
+}
+
+// nameKind: which kinds of name pairs the document holds (plain / differing in capitalisation
+// after the first letter / differing in the first letter's case, i.e. one Go name)
+func nameKind(doc []objT) string {
+	cv, tc := false, false
+	pair := func(a, b string) {
+		if a != b && fold(a) == fold(b) {
+			if titleOf(a) == titleOf(b) {
+				tc = true
+			} else {
+				cv = true
+			}
+		}
+	}
+	for i, o := range doc {
+		for _, x := range doc[i+1:] {
+			pair(o.Name, x.Name)
+		}
+		for k, p := range o.Props {
+			for _, y := range o.Props[k+1:] {
+				pair(p.Name, y.Name)
+			}
+		}
+	}
+	switch {
+	case cv && tc:
+		return "fold+title"
+	case cv:
+		return "fold"
+	case tc:
+		return "title"
+	}
+	return "plain"
 }
 
 func ignKind(doc []objT, a argsT) string {
